@@ -67,6 +67,8 @@ class Item:
         return f"I{self.s}.{self.p}k{self.k}"
 
     def _ok(self, other):
+        if isinstance(other, Item) and (self.k == 9 or other.k == 9):
+            raise TypeError("unorderable item")        # k = 9: every ordering comparison fails
         return other.k if isinstance(other, Item) else NotImplemented
 
     def __lt__(self, o):
@@ -86,14 +88,14 @@ class Item:
         return k if k is NotImplemented else self.k >= k
 
     def __eq__(self, o):
-        k = self._ok(o)
-        return k if k is NotImplemented else self.k == k
+        return self.k == o.k if isinstance(o, Item) else NotImplemented
 
     def __ne__(self, o):
-        k = self._ok(o)
-        return k if k is NotImplemented else self.k != k
+        return self.k != o.k if isinstance(o, Item) else NotImplemented
 
     def __hash__(self):
+        if self.k == 8:
+            raise TypeError("unhashable item")          # k = 8
         return hash(("item", self.k))
 
     def __bool__(self):
